@@ -654,6 +654,8 @@ class HDF5FileSources(Contract):
                     names.add(x.get('name'))
                 if x.get('kind') == 'IntegerLiteral':
                     names.add(x.get('value'))
+            if m in ('_maxn', '_impSize'):
+                continue        # evaluated below (1b): a token match both misses wrong initialisers and rejects harmless rewrites (helper, swapped branches)
             ob(f'member.{m}', all(t in names for t in tokens), f'{m} is initialised as {meaning} (tokens {tokens}; found {sorted(n for n in names if n)[:8]})')
         # (1b) the two row lengths that other code relies on, evaluated (not only token-matched): with a field given, _maxn is HALF
         # THE FIELD's transform length -- append(ef) copies _maxn samples out of each spectrum row of ef->getNMax() samples (C17) and
